@@ -81,7 +81,9 @@ func c12Script(k int, tag string, seedRng *Rng, cfg Config, steps int, paths []s
 		return run
 	}
 	bad := badArgQueries(rng, paths)
-	o := HistOpts{MaxObjs: 10, BiasUnique: true, Rec: RecOpts{InvalidP: 0.1, Simple: true},
+	// containers included: nil / empty / non-empty slices and maps must read
+	// back the same whatever the storage configuration
+	o := HistOpts{MaxObjs: 10, BiasUnique: true, Rec: RecOpts{InvalidP: 0.1},
 		Mix: Mix{Ins: 35, Upd: 25, Noop: 3, Del: 10, DelAbs: 2, Reins: 2, Many: 6, Bulk: 2, SDel: 3, DelAll: 1, Reopen: 4, Create: 1, Flush: 3, Tick: 4}}
 	observe := func(label string, kind string) {
 		// queries drawn from the model, which is configuration independent
@@ -112,7 +114,7 @@ func c12Script(k int, tag string, seedRng *Rng, cfg Config, steps int, paths []s
 		var b strings.Builder
 		b.WriteString(label)
 		for _, k := range keys {
-			fmt.Fprintf(&b, "\n  %s => %s", k, obs[k])
+			fmt.Fprintf(&b, "\n  %s => %s", k, strings.ReplaceAll(obs[k], "\n", " ; "))
 		}
 		run.trace = append(run.trace, b.String())
 	}
